@@ -95,6 +95,13 @@ fn fri_committed_trees<F: RichField + Extendable<D>, C: GenericConfig<D, F = F>,
     for arity_bits in &fri_params.reduction_arity_bits {
         let arity = 1 << arity_bits;
 
+        #[cfg(plonky2_verif)]
+        if let Some((layer, delta)) = crate::verif_knobs::get().fri_layer_delta {
+            if layer == trees.len() {
+                let delta = F::Extension::from_canonical_u64(delta);
+                values.values.iter_mut().for_each(|v| *v += delta);
+            }
+        }
         reverse_index_bits_in_place(&mut values.values);
         let chunked_values = values
             .values
@@ -136,6 +143,10 @@ fn fri_committed_trees<F: RichField + Extendable<D>, C: GenericConfig<D, F = F>,
         .coeffs
         .truncate(coeffs.len() >> fri_params.config.rate_bits);
 
+    #[cfg(plonky2_verif)]
+    if let Some((index, delta)) = crate::verif_knobs::get().fri_final_poly_delta {
+        coeffs.coeffs[index] += F::Extension::from_canonical_u64(delta);
+    }
     challenger.observe_extension_elements(&coeffs.coeffs);
     // When verifying this proof in a circuit with a different final polynomial length,
     // the challenger needs to observe the full length of the final polynomial.
@@ -159,6 +170,14 @@ pub(crate) fn fri_proof_of_work<
     config: &FriConfig,
 ) -> F {
     let min_leading_zeros = config.proof_of_work_bits + (64 - F::order().bits()) as u32;
+
+    #[cfg(plonky2_verif)]
+    if let Some(w) = crate::verif_knobs::get().pow_witness {
+        let pow_witness = F::from_canonical_u64(w);
+        challenger.observe_element(pow_witness);
+        let _pow_response = challenger.get_challenge();
+        return pow_witness;
+    }
 
     // The easiest implementation would be repeatedly clone our Challenger. With each clone, we'd
     // observe an incrementing PoW witness, then get the PoW response. If it contained sufficient
